@@ -209,3 +209,10 @@ mut("c15-bounds-var-param-guard", "C15", "MUST", "hclsyntax/expression.go",
 mut("c15-bounds-var-keep-flipped", "C15", "KEEP", "hclsyntax/expression.go",
     "\t\t\ti := terr.Index\n\t\t\tvar param *function.Parameter\n\t\t\tif i < len(params) {\n\t\t\t\tparam = &params[i]\n\t\t\t} else {\n\t\t\t\tparam = varParam\n\t\t\t}",
     "\t\t\ti := terr.Index\n\t\t\tparam := varParam\n\t\t\tif n := len(params); n > i {\n\t\t\t\tparam = &params[i]\n\t\t\t}", "")
+
+# ---- C13 string.delims ---------------------------------------------------------------------------
+mut("c13-delims-quote-only", "C13", "MUST", "json/scanner.go",
+    'bytes.IndexAny(buf[i+1:i+advance], "\\"\\\\")', 'bytes.IndexAny(buf[i+1:i+advance], "\\"")', "string.delims")
+mut("c13-delims-keep-two-searches", "C13", "KEEP", "json/scanner.go",
+    'if j := bytes.IndexAny(buf[i+1:i+advance], "\\"\\\\"); j >= 0 {\n\t\t\t\tadvance = j + 1\n\t\t\t}',
+    'rest := buf[i+1 : i+advance]\n\t\t\tif j := bytes.IndexByte(rest, \'"\'); j >= 0 {\n\t\t\t\tadvance = j + 1\n\t\t\t\trest = rest[:j]\n\t\t\t}\n\t\t\tif j := bytes.IndexByte(rest, \'\\\\\'); j >= 0 {\n\t\t\t\tadvance = j + 1\n\t\t\t}', "")
